@@ -15,4 +15,8 @@ theorem v40 : GenV40.pkg_inits = [] ∧ GenV40.pkg_build_tags = [] ∧ GenV40.pk
 /-- … and the set of package-level variables is exactly the documented one (error sentinels, immutable tables, v2's pool) -/
 theorem vars40 : GenV40.pkg_vars =
     ["ErrInvalidCVSSHeader:error", "ErrInvalidMetricOrder:error", "ErrInvalidMetricValue:error", "ErrOutOfBoundsScore:error", "ErrTooShortVector:error", "highestSeverityVectors:[][][]int", "highestSeverityVectorsEQ3EQ6:[][][]int", "order:[][]string", "sevIdx:[][]uint8"] := by decide
+/-- the object is exactly its packed bytes: 9 `uint8` fields and nothing else (so Go's `==` on objects is equality of the
+    bytes the model works on — no cached or hidden state takes part in it), and only these methods have a pointer receiver
+    (every other method works on a copy and cannot change the object) -/
+theorem obj40 : GenV40.obj_fields = ["u0:uint8", "u1:uint8", "u2:uint8", "u3:uint8", "u4:uint8", "u5:uint8", "u6:uint8", "u7:uint8", "u8:uint8"] ∧ GenV40.obj_ptr_methods = ["Score", "Set"] := by decide
 end StateTie
